@@ -16,6 +16,8 @@ from ..core import (AnalysisError, short, unparse, iter_own, call_name, call_rec
 WALKER = 'pylatexenc.latexwalker._walker'
 SPEC = 'pylatexenc.macrospec._specclasses'
 ARGP = 'pylatexenc.macrospec._argumentsparser'
+from .. import symex
+
 HELP = 'pylatexenc.macrospec._spechelpers'
 BASE = 'pylatexenc.macrospec._pyltxenc2_argparsers._base'
 
@@ -260,16 +262,79 @@ def run(ctx):
     se = hp.functions.get('std_environment')
     if sm is None or se is None:
         raise AnalysisError('anchor vanished: std_macro/std_environment')
-    txt = unparse(sm)
-    ok = "argspec = '['" in txt and ("argspec += '{' * args[1]" in txt) and 'MacroSpec(macname, argspec)' in txt
-    ctx.decide('R16f', ok, hp, sm, "argspec = ('[' if optarg) + '{' * numargs -> MacroSpec(name, argspec)",
-               'std_macro no longer builds the argument string from (optarg, numargs) as documented',
+    from .c03 import _concat_parts
+    why = None
+    seen = set()
+    try:
+        cases = symex.sink_cases(sm, lambda c: call_name(c) in ('MacroSpec', 'EnvironmentSpec') and len(c.args) >= 2)
+    except symex.TooManyPaths as e:
+        cases, why = [], str(e)
+    vararg = sm.args.vararg.arg if sm.args.vararg else 'args'
+
+    def _norm_items(e, env):
+        class T(ast.NodeTransformer):
+            def visit_Name(self, n):
+                d_ = symex.item_def(n.id, env)
+                if d_ and isinstance(d_[3], ast.AST):
+                    return ast.Subscript(value=symex.clone(d_[3]),
+                                         slice=ast.Constant(value=d_[1]), ctx=ast.Load())
+                return n
+        return T().visit(symex.clone(e))
+    for cs in cases:
+        spec = _norm_items(cs.sub.args[1], cs.env)
+        parts = [x for x in _concat_parts(spec) if not (isinstance(x, ast.Constant) and x.value == '')]
+        mult = [x for x in parts if isinstance(x, ast.BinOp) and isinstance(x.op, ast.Mult)]
+        if not mult:
+            continue          # argument string given directly
+        facts = set()
+        for t_, pol in cs.conds:
+            for a, ap in symex._atoms(_norm_items(t_, cs.env), pol):
+                facts.add(symex.canon(a, ap))
+        m0 = mult[0]
+        cnt = m0.right if (isinstance(m0.left, ast.Constant) and m0.left.value == '{') else (
+            m0.left if (isinstance(m0.right, ast.Constant) and m0.right.value == '{') else None)
+        rep_ok = isinstance(cnt, ast.Subscript) and isinstance(cnt.slice, ast.Constant) and cnt.slice.value == 1
+        base = unparse(cnt.value) if rep_ok else '?'
+        opt = [p_ for t_, p_ in facts if t_ == '%s[0]' % base]
+        bracket = len(parts) == 2 and isinstance(parts[0], ast.Constant) and parts[0].value == '['
+        plain = len(parts) == 1
+        if not rep_ok or not (bracket or plain) or not opt:
+            why = 'the argument string is built as %s' % short(spec, 70)
+            break
+        seen.add((bracket, opt[0]))
+    if why is None and seen != {(True, True), (False, False)}:
+        why = 'bracket/optional-argument cases are %s' % sorted(seen)
+    ctx.decide('R16f', why is None, hp, sm, "argspec = ('[' if optarg) + '{' * numargs -> MacroSpec(name, argspec)",
+               'std_macro no longer builds the argument string from (optarg, numargs) as documented: %s' % why,
                construct='std_macro: argspec construction')
-    tse = unparse(se)
-    okse = any(isinstance(c, ast.Call) and call_name(c) == 'std_macro' for c in ast.walk(se)) and \
-        'make_environment_spec=True' in tse and 'environment_is_math_mode=is_math_mode' in tse
+    # std_environment: forwards to std_macro with make_environment_spec=True and its is_math_mode
+    fw = [c for c in ast.walk(se) if isinstance(c, ast.Call) and call_name(c) == 'std_macro']
+    okse = False
+    why = 'no call of std_macro'
+    if fw:
+        star = [k.value for k in fw[0].keywords if k.arg is None]
+        given = dict((k.arg, unparse(k.value)) for k in fw[0].keywords if k.arg)
+        if star and isinstance(star[0], ast.Name):
+            K = star[0].id
+            for st_ in ast.walk(se):
+                if isinstance(st_, ast.Call) and call_name(st_) == 'update' and call_recv(st_) is not None \
+                        and unparse(call_recv(st_)) == K:
+                    given.update((k.arg, unparse(k.value)) for k in st_.keywords if k.arg)
+                if isinstance(st_, ast.Assign) and isinstance(st_.targets[0], ast.Subscript) and \
+                        unparse(st_.targets[0].value) == K and isinstance(st_.targets[0].slice, ast.Constant):
+                    given[st_.targets[0].slice.value] = unparse(st_.value)
+                if isinstance(st_, ast.Assign) and unparse(st_.targets[0]) == K and \
+                        isinstance(st_.value, ast.Call) and call_name(st_.value) == 'dict':
+                    given.update((k.arg, unparse(k.value)) for k in st_.value.keywords if k.arg)
+        mmv = [unparse(x.targets[0]) for x in ast.walk(se) if isinstance(x, ast.Assign)
+               and isinstance(x.value, ast.Call) and call_name(x.value) in ('pop', 'get') and x.value.args
+               and isinstance(x.value.args[0], ast.Constant) and x.value.args[0].value == 'is_math_mode']
+        okse = given.get('make_environment_spec') == 'True' and bool(mmv) and \
+            given.get('environment_is_math_mode') == mmv[0]
+        why = 'keywords forwarded: %s' % given
     ctx.decide('R16f', okse, hp, se, 'std_environment forwards to std_macro(make_environment_spec=True)',
-               'std_environment does not forward to std_macro(..., make_environment_spec=True)',
+               'std_environment does not forward to std_macro(..., make_environment_spec=True, '
+               'environment_is_math_mode=<its is_math_mode>): %s' % why,
                construct='std_environment: forwarding')
 
     # ---- R16g
